@@ -38,10 +38,16 @@ CLAIMED = {
     'C06': dict(design='§6 C06', technique='Lean 4 proof (calcProbs: permutation, count/total, stable sort, sum = 1 over Rat, Markov share) + bit-exact correspondence + file-by-file recomputation',
                 text='Theorems for every counter; real calculate_probabilities compared bit for bit; every list file of real trainings equals the independently recomputed relative-frequency list of the real parser counters; determinism across hash seeds.',
                 note='float sums differ from 1 by rounding only; which items reach which counter is C05'),
-    'C11': dict(design='§6 C11', technique='Lean 4 model of trainer/scorer/guesser level functions + correspondence of the three real implementations (theorems being added)',
+    'C12': dict(design='§6 C12, App. B', technique='Lean 4 proof (two-actor state machine, induction over all schedules and stdin scripts) + real two-thread runs under a scripted baton + 6 real stdin kinds',
+                text='For every schedule and stdin script: output is a prefix of the stream; complete unless q was read; exit only after q, saved, at a boundary. Quit-test source generated from the code. Real CrackingSession/keypress driven deterministically and compared with the model.',
+                note='OS scheduling and input() per stdin kind observed, not proved; GIL atomicity trusted'),
+    'C15': dict(design='§6 C15, App. B', technique='Lean 4 proof (exit/resume exactness for arbitrary starting files, no-replay, enumerator state split) + scripted quits at every guess position with 2-3 resume cycles',
+                text='printed ++ remaining(files left) = remaining(start) for every schedule; option removed after the restored level; real sessions quit at each j and resumed, concatenation = uninterrupted stream.',
+                note='pickle/configparser round trips trusted; quit inside the very last Markov pre-terminal is a recorded known finding'),
+    'C11': dict(design='§6 C11', technique='Lean 4 proof (scorer = trainer = levelOf over loaded tables; with C10: guesser emits s at L iff trainer level L) + correspondence of the three real implementations',
                 text='find_omen_level, OmenScorer.parse and the real MarkovCracker agree with each other and with the model on training, perturbed and boundary strings; guesser side proved exact in C10.',
                 note='smoothing (log/floor) modelled not verified: levels are inputs'),
-    'C18': dict(design='§6 C18', technique='Lean 4 model of calc_omen_keyspace (recursive + tabulated) + count comparison with the real generator (theorems being added)',
+    'C18': dict(design='§6 C18', technique='Lean 4 proof (levelKeyspace = number of emitted guesses; recursion = tree count; memo = recursion; listing spec) + count comparison with the real generator',
                 text='Saved keyspace = number of guesses per level for the real generator and the model; saved probability = (count/N)/keyspace.',
                 note='levels too large to enumerate are covered by the model only'),
     'C19': dict(design='§6 C19', technique='Lean 4 proof (readLine: hex = plain, count = repeats, skips, no leak, fold) + reader correspondence + trained-ruleset comparison',
